@@ -152,9 +152,22 @@ func VerifC27_history() {
 				vfReach("history-blocked")
 				continue
 			}
-			size := vfInt("ssize")
-			vfAssume(vfAnd(1 <= size, size <= c.maxSendSize()))
-			c.packetSent(now, nil, initialSpace, c27sentPacket(c, initialSpace, size))
+			var size int
+			if vfTier() > 0 {
+				// longer histories with boundary sizes only (chains of 5 symbolic sizes are too hard for the solvers)
+				size = 1
+				if vfBool("maxSize") {
+					size = c.maxSendSize()
+				}
+			} else {
+				size = vfInt("ssize")
+				vfAssume(vfAnd(1 <= size, size <= c.maxSendSize()))
+			}
+			sent := c27sentPacket(c, initialSpace, size)
+			if vfTier() > 0 {
+				sent.inFlight = sent.ackEliciting // thorough: ack-eliciting or ACK-only, no padding-only packets
+			}
+			c.packetSent(now, nil, initialSpace, sent)
 			S += int64(size)
 			vfReach("history-sent")
 		}
